@@ -2143,3 +2143,119 @@ func runVNGMetadataValidated(c *Ctx, rule string) bool {
 	}
 	return ok
 }
+
+// ---- C17-S1: a journal snapshot that failed to load is not used.
+//
+// The snapshot file is written with a plain Put, so a crash can leave it torn.  getSnapshot then
+// returns an error together with whatever it had read.  Using that partial table and its position
+// as the starting point of the replay loses every entry that was in the missing part.
+func runSnapshotErrorNotUsed(c *Ctx, rule string) {
+	p := c.P
+	c.Rule(rule, "in journal.Store.load the position and table returned by getSnapshot are used only where its error was tested to be nil; on the error edge the replay starts from the beginning of the journal with an empty table")
+	fn := p.Func("(*lake/journal.Store).load")
+	if fn == nil {
+		c.Undecided(rule, "(*lake/journal.Store).load", "anchor does not resolve")
+		return
+	}
+	var call *ssa.Call
+	for _, ci := range allCalls(fn) {
+		if calleeName(ci.Common()) == "(*lake/journal.Store).getSnapshot" {
+			call, _ = ci.(*ssa.Call)
+		}
+	}
+	if call == nil {
+		c.Undecided(rule, "(*lake/journal.Store).load", "getSnapshot call not found")
+		return
+	}
+	var errEx *ssa.Extract
+	var vals []*ssa.Extract
+	for _, r := range *call.Referrers() {
+		if ex, ok := r.(*ssa.Extract); ok {
+			if isError(ex.Type()) {
+				errEx = ex
+			} else {
+				vals = append(vals, ex)
+			}
+		}
+	}
+	if errEx == nil {
+		c.Fail(rule, "(*lake/journal.Store).load -> getSnapshot", call.Pos(), "the error of getSnapshot is never looked at")
+		return
+	}
+	// blocks on which err is known nil
+	okBlock := func(b *ssa.BasicBlock) bool {
+		for _, r := range *errEx.Referrers() {
+			cmp, ok := r.(*ssa.BinOp)
+			if !ok || !isNilConst(cmp.Y) {
+				continue
+			}
+			if cmp.Op == token.NEQ && falseEdgeDominatesOrSelf(cmp, b) {
+				return true
+			}
+			if cmp.Op == token.EQL && trueEdgeDominatesOrSelf(cmp, b) {
+				return true
+			}
+		}
+		return false
+	}
+	n := 0
+	for _, ex := range vals {
+		for _, r := range *ex.Referrers() {
+			if _, ok := r.(*ssa.DebugRef); ok {
+				continue
+			}
+			n++
+			in := r.(ssa.Instruction)
+			good := false
+			if phi, ok := r.(*ssa.Phi); ok {
+				good = true
+				for i, e := range phi.Edges {
+					if e == ssa.Value(ex) && !okBlockEdge(errEx, phi.Block().Preds[i], phi.Block()) {
+						good = false
+					}
+				}
+			} else {
+				good = okBlock(in.Block())
+			}
+			construct := "(*lake/journal.Store).load uses a result of getSnapshot #" + sprint(n)
+			if good {
+				c.OK(rule, construct, in.Pos(), "only where the snapshot was read without error")
+			} else {
+				c.Fail(rule, construct, in.Pos(), "a position or table returned together with an error is used: after a crash that tore the snapshot file, the replay starts from the snapshot's position with only the entries read before the tear, so every branch or pool recorded in the lost part silently disappears")
+			}
+		}
+	}
+	if n == 0 {
+		c.Undecided(rule, "(*lake/journal.Store).load", "no use of getSnapshot's results found")
+	}
+}
+
+// okBlockEdge: the edge pred->blk is only taken when err (an Extract) is nil.
+func okBlockEdge(errEx *ssa.Extract, pred, blk *ssa.BasicBlock) bool {
+	for _, r := range *errEx.Referrers() {
+		cmp, ok := r.(*ssa.BinOp)
+		if !ok || !isNilConst(cmp.Y) {
+			continue
+		}
+		for _, rr := range *cmp.Referrers() {
+			iff, ok := rr.(*ssa.If)
+			if !ok {
+				continue
+			}
+			nilSucc := 1
+			if cmp.Op == token.EQL {
+				nilSucc = 0
+			}
+			ifb := iff.Block()
+			// the edge leaves the If block directly on the nil side, or pred is dominated by the nil successor
+			if pred == ifb && ifb.Succs[nilSucc] == blk && ifb.Succs[1-nilSucc] != blk {
+				return true
+			}
+			ns := ifb.Succs[nilSucc]
+			if len(ns.Preds) == 1 && ns.Dominates(pred) {
+				return true
+			}
+		}
+	}
+	return false
+}
